@@ -123,6 +123,9 @@ func (obj SparseConstFloat64Vector) Dim() int {
   return obj.n
 }
 func (obj SparseConstFloat64Vector) Int8At(i int) int8 {
+  if i < 0 || i >= obj.n {
+    panic("index out of bounds")
+  }
   if len(obj.idxmap) == 0 {
     obj.CreateIndex()
   }
@@ -133,6 +136,9 @@ func (obj SparseConstFloat64Vector) Int8At(i int) int8 {
   }
 }
 func (obj SparseConstFloat64Vector) Int16At(i int) int16 {
+  if i < 0 || i >= obj.n {
+    panic("index out of bounds")
+  }
   if len(obj.idxmap) == 0 {
     obj.CreateIndex()
   }
@@ -143,6 +149,9 @@ func (obj SparseConstFloat64Vector) Int16At(i int) int16 {
   }
 }
 func (obj SparseConstFloat64Vector) Int32At(i int) int32 {
+  if i < 0 || i >= obj.n {
+    panic("index out of bounds")
+  }
   if len(obj.idxmap) == 0 {
     obj.CreateIndex()
   }
@@ -153,6 +162,9 @@ func (obj SparseConstFloat64Vector) Int32At(i int) int32 {
   }
 }
 func (obj SparseConstFloat64Vector) Int64At(i int) int64 {
+  if i < 0 || i >= obj.n {
+    panic("index out of bounds")
+  }
   if len(obj.idxmap) == 0 {
     obj.CreateIndex()
   }
@@ -163,6 +175,9 @@ func (obj SparseConstFloat64Vector) Int64At(i int) int64 {
   }
 }
 func (obj SparseConstFloat64Vector) IntAt(i int) int {
+  if i < 0 || i >= obj.n {
+    panic("index out of bounds")
+  }
   if len(obj.idxmap) == 0 {
     obj.CreateIndex()
   }
@@ -173,6 +188,9 @@ func (obj SparseConstFloat64Vector) IntAt(i int) int {
   }
 }
 func (obj SparseConstFloat64Vector) Float32At(i int) float32 {
+  if i < 0 || i >= obj.n {
+    panic("index out of bounds")
+  }
   if len(obj.idxmap) == 0 {
     obj.CreateIndex()
   }
@@ -183,6 +201,9 @@ func (obj SparseConstFloat64Vector) Float32At(i int) float32 {
   }
 }
 func (obj SparseConstFloat64Vector) Float64At(i int) float64 {
+  if i < 0 || i >= obj.n {
+    panic("index out of bounds")
+  }
   if len(obj.idxmap) == 0 {
     obj.CreateIndex()
   }
@@ -193,6 +214,9 @@ func (obj SparseConstFloat64Vector) Float64At(i int) float64 {
   }
 }
 func (obj SparseConstFloat64Vector) ConstAt(i int) ConstScalar {
+  if i < 0 || i >= obj.n {
+    panic("index out of bounds")
+  }
   if len(obj.idxmap) == 0 {
     obj.CreateIndex()
   }
@@ -203,6 +227,9 @@ func (obj SparseConstFloat64Vector) ConstAt(i int) ConstScalar {
   }
 }
 func (obj SparseConstFloat64Vector) ConstSlice(i, j int) ConstVector {
+  if i < 0 || j > obj.n || i > j {
+    panic(fmt.Sprintf("slice bounds [%d:%d] out of range for vector of dimension %d", i, j, obj.n))
+  }
   if i == 0 {
     k1 := 0
     k2 := sort.SearchInts(obj.indices, j)
